@@ -148,9 +148,19 @@ CLAIMED = {
             "semantics) is tied to from_jsonfile / validate_and_get_values / save+load by correspondence on "
             "mutated certificate-shaped documents, run under a wall-clock alarm.",
             "base64 acceptance of X.509 messages is an input of the model; signature checks stubbed by a link table"),
-    "C14": ("Lean theorems about the model of get_unsigned_tx (python-bitcoinlib's codec re-modelled): fields "
-            "preserved, script shape; tied to the code by differential correspondence and the oracle Spec.c14 "
-            "evaluated on the implementation's output.",
+    "C14": ("Lean theorems about the model of get_unsigned_tx (python-bitcoinlib's transaction and script codec "
+            "re-modelled): version, outputs, lock time, witness, and per input outpoint and sequence are carried "
+            "over; each input script becomes n-1 empty pushes followed by its last operation re-encoded "
+            "canonically and decodes to exactly those operations (script_shape, any push encoding, any length "
+            "below 2^32); clearing is idempotent on scripts and on transactions; two scripts with the same number "
+            "of operations and the same last operation clear to the same bytes (signature independence); a "
+            "transaction is refused exactly when some input script is undecodable or empty; and on the wire: "
+            "what is relayed for a decodable transaction with at least one input is a fixed point of the whole "
+            "byte-level transformation (relayed_fixed_point, via the proved serialize/deserialize round trip of "
+            "the codec for legacy and segwit forms and 'a parsed transaction is well-formed'); the sign handler "
+            "answers -102 with no event at all when the transaction cannot be cleared (undecodable_tx_refused). "
+            "Tied to the code by differential correspondence (get_unsigned_tx, and the relay path through the real "
+            "manager incl. a pending link repair) and the oracle Spec.c14 evaluated on the implementation's output.",
             "python-bitcoinlib is represented by the validated shim; theorems are about the model"),
     "C17": ("Lean theorems: the text to be signed is exactly RSK_powHSM_signer_<hash>_iteration_<n> wrapped as an "
             "Ethereum personal message with the decimal length; str(n) is injective (decimal read-back) and so is "
